@@ -1943,7 +1943,7 @@ func (k *Kernel) handleReplayedHeader(
 	// the validator set we expect for this height,
 	// not against whatever set the replayed header claims.
 	if !header.ValidatorSet.Equal(s.Voting.ValidatorSet) ||
-		!validatorSetConsistent(header.ValidatorSet, k.hashScheme) {
+		!ValidatorSetConsistent(header.ValidatorSet, k.hashScheme) {
 		return tmelink.ReplayedHeaderValidationError{
 			Err: fmt.Errorf(
 				"replayed header's validator set (pub key hash %x) differs from expected validator set (pub key hash %x)",
@@ -1951,7 +1951,7 @@ func (k *Kernel) handleReplayedHeader(
 			),
 		}
 	}
-	if !validatorSetConsistent(header.NextValidatorSet, k.hashScheme) {
+	if !ValidatorSetConsistent(header.NextValidatorSet, k.hashScheme) {
 		return tmelink.ReplayedHeaderValidationError{
 			Err: errors.New("replayed header's next validator set does not match its own hashes"),
 		}
@@ -2183,11 +2183,11 @@ func (k *Kernel) handleReplayedHeader(
 	return nil
 }
 
-// validatorSetConsistent reports whether the validator and public key lists in vs
+// ValidatorSetConsistent reports whether the validator and public key lists in vs
 // agree with each other and hash to the hashes recorded in vs.
 // The block hash only covers the two hashes,
 // so lists received from the network must be checked against them before use.
-func validatorSetConsistent(vs tmconsensus.ValidatorSet, hs tmconsensus.HashScheme) bool {
+func ValidatorSetConsistent(vs tmconsensus.ValidatorSet, hs tmconsensus.HashScheme) bool {
 	if len(vs.Validators) == 0 || len(vs.Validators) != len(vs.PubKeys) {
 		return false
 	}
